@@ -461,11 +461,16 @@ theorem eol_ascii (ls : Lines) (r : Int) (w : Bytes) (hline : lineAt ls r = some
   unfold Spec.Motion.lastCol
   split <;> omega
 
-/-- `lbuf_indents`: the number of leading C-locale space bytes (this includes the newline), 0 for a
-    missing line -/
+/-- a blank is an indentation byte: a C-locale space other than the newline -/
+theorem isBlank_indent (b : Nat) (h : Spec.Motion.isBlank b = true) : (b != 10 && ucIsSpace b) = true := by
+  unfold Spec.Motion.isBlank at h
+  simp only [Bool.or_eq_true, beq_iff_eq] at h
+  rcases h with h | h <;> subst h <;> decide
+
+/-- `lbuf_indents`: the number of leading C-locale space bytes before the newline, 0 for a missing line -/
 theorem indents_spec (ls : Lines) (r : Int) :
     (lineAt ls r = none → indents ls r = 0) ∧
-    (∀ ln, lineAt ls r = some ln → indents ls r = ((ln.takeWhile (fun c => ucIsSpace c)).length : Nat)) := by
+    (∀ ln, lineAt ls r = some ln → indents ls r = ((ln.takeWhile (fun c => c != 10 && ucIsSpace c)).length : Nat)) := by
   unfold indents
   constructor
   · intro h; rw [h]
@@ -480,7 +485,7 @@ theorem indents_firstNonBlank (ls : Lines) (r : Int) (pre rest : Bytes) (x : Nat
   constructor
   · rw [(indents_spec ls r).2 _ hline]
     rw [show pre ++ x :: rest ++ [10] = pre ++ x :: (rest ++ [10]) by simp]
-    rw [takeWhile_pre _ pre x _ (fun b hb => isBlank_space b (hpre b hb)) hx]
+    rw [takeWhile_pre _ pre x _ (fun b hb => isBlank_indent b (hpre b hb)) (by simp [hx])]
   · unfold Spec.Motion.firstNonBlank
     have hxb : Spec.Motion.isBlank x = false := by
       cases h : Spec.Motion.isBlank x with
@@ -493,18 +498,12 @@ theorem indents_firstNonBlank (ls : Lines) (r : Int) (pre rest : Bytes) (x : Nat
     rw [this, hpre _ (List.getElem_mem hj)]
     rfl
 
-/-- a line of blanks only: `lbuf_indents` runs over the newline as well (then `ren_noeol` brings the
-    cursor back to the last blank) -/
+/-- a line of blanks only: `lbuf_indents` stops at the newline (then `ren_noeol` brings the cursor back to
+    the last blank) -/
 theorem indents_blank_line (ls : Lines) (r : Int) (w : Bytes) (hline : lineAt ls r = some (w ++ [10]))
-    (hw : ∀ b ∈ w, Spec.Motion.isBlank b = true) : indents ls r = w.length + 1 := by
+    (hw : ∀ b ∈ w, Spec.Motion.isBlank b = true) : indents ls r = w.length := by
   rw [(indents_spec ls r).2 _ hline]
-  rw [takeWhile_all]
-  · simp
-  · intro b hb
-    simp at hb
-    rcases hb with hb | hb
-    · exact isBlank_space b (hw b hb)
-    · subst hb; decide
+  rw [takeWhile_pre _ w 10 [] (fun b hb => isBlank_indent b (hw b hb)) (by decide)]
 
 /-- `lbuf_findchar` on an ASCII line, for `f` (102), `F` (70), `t` (116), `T` (84), a positive count, an
     ASCII character other than the newline, and the cursor on the line: it agrees with the reference
@@ -680,7 +679,7 @@ example : findchar [[97, 98, 32, 99, 98, 10], [120, 10]] [98] 102 2 0 0 = some 4
 example : findchar [[97, 98, 32, 99, 98, 10], [120, 10]] [98] 84 1 0 4 = some 2 ∧
     Spec.Motion.findChar [97, 98, 32, 99, 98] 4 98 false true 1 = some 2 := by decide
 example : eol [[97, 98, 32, 99, 98, 10], [120, 10]] 0 = 5 ∧ indents [[32, 9, 120, 10]] 0 = 2 ∧
-    indents [[32, 32, 10]] 0 = 3 ∧ Mot.next [[97, 10], [120, 10]] 1 0 1 = some (1, 0) ∧
+    indents [[32, 32, 10]] 0 = 2 ∧ indents [[10]] 0 = 0 ∧ Mot.next [[97, 10], [120, 10]] 1 0 1 = some (1, 0) ∧
     Mot.next [[97, 10], [120, 10]] (-1) 1 0 = some (0, 1) ∧
     paragraphbeg [[97, 10], [10], [120, 10]] 1 0 = (1, 0) := by decide
 
